@@ -24,7 +24,7 @@
  "name": "desc_loc_agreement_1k_bigalloc",
  "props": ["C20", "C07"],
  "level": "U",
- "tier": "wip",
+ "tier": "quick",
  "harness": "h_agree_1k_bigalloc",
  "enforce": ["ext2fs_descriptor_block_loc2"],
  "replace": ["ext2fs_bg_has_super"],
